@@ -33,6 +33,9 @@ type c06Input struct {
 	// has a read deadline armed, sees it expire in the middle of a record, clears it, the transport lets the rest through,
 	// and the reader reads on: nothing may be lost
 	PauseAt int `json:"pause_at,omitempty"`
+	// Duplex: while the stream flows, the reading end writes the same sizes the other way and the writing end reads
+	// them: Read and Write are in flight on each connection at the same time
+	Duplex bool `json:"duplex,omitempty"`
 }
 
 func c06Mode(suite uint16) string {
@@ -91,6 +94,40 @@ func c06AddCase(out *emit.Out, scenario string, in c06Input) {
 	var ansErr string
 	var wg sync.WaitGroup
 	wg.Add(2)
+	backDone := make(chan struct{})
+	var back, backGot []byte
+	var backErr string
+	if in.Duplex {
+		wg.Add(2)
+		go func() { // the reading end writes the other way
+			defer wg.Done()
+			for i, n := range in.Writes {
+				p := bytes.Repeat([]byte{byte(0x40 + i)}, n)
+				back = append(back, p...)
+				if k, err := reader.Write(p); err != nil || k != n {
+					backErr = "write:" + tk.ErrClass(err)
+					return
+				}
+			}
+		}()
+		go func() { // the writing end reads it
+			defer wg.Done()
+			want := 0
+			for _, n := range in.Writes {
+				want += n
+			}
+			buf := make([]byte, 3000)
+			for len(backGot) < want {
+				n, err := writer.Read(buf)
+				backGot = append(backGot, buf[:n]...)
+				if err != nil {
+					backErr = "read:" + tk.ErrClass(err)
+					return
+				}
+			}
+			close(backDone)
+		}()
+	}
 	go func() {
 		defer wg.Done()
 		for i, n := range in.Writes {
@@ -104,6 +141,12 @@ func c06AddCase(out *emit.Out, scenario string, in c06Input) {
 			if err != nil {
 				werr = tk.ErrClass(err)
 				break
+			}
+		}
+		if in.Duplex {
+			select { // close only once the other direction has been read to its end
+			case <-backDone:
+			case <-time.After(10 * time.Second):
 			}
 		}
 		if len(in.Answer) == 0 {
@@ -184,7 +227,7 @@ func c06AddCase(out *emit.Out, scenario string, in c06Input) {
 			wireLens = append(wireLens, len(r))
 		}
 	}
-	intact := bytes.Equal(sent, got) && bytes.Equal(ansSent, ansGot)
+	intact := bytes.Equal(sent, got) && bytes.Equal(ansSent, ansGot) && bytes.Equal(back, backGot) && backErr == ""
 	zs := func(xs []int) string {
 		var s []string
 		for _, x := range xs {
@@ -239,6 +282,10 @@ func runC06(p params) error {
 		c06AddCase(out, "corpus-ramp-cap", c06Input{Suite: su, Writes: []int{200000}, Bufs: big, Dir: []string{"c2s", "s2c"}[i%2]})
 		c06AddCase(out, "corpus-ramp-cap", c06Input{Suite: su, Writes: []int{60000, 60000, 1}, Bufs: big, Seg: []int{1400}, Dir: "c2s"})
 		c06AddCase(out, "corpus-sizing-off", c06Input{Suite: su, DynOff: true, Writes: []int{16384*3 + 5, 16384, 16385}, Bufs: big, Dir: "s2c"})
+	}
+	// corpus: both directions at once (Read and Write in flight on the same connection)
+	for i, su := range suites {
+		c06AddCase(out, "corpus-full-duplex", c06Input{Suite: su, Writes: []int{300000, 5, 70000}, Bufs: []int{1000}, Dir: []string{"c2s", "s2c"}[i%2], Duplex: true, DynOff: i >= 2})
 	}
 	// corpus: the reader's deadline expires in the middle of a record (header cut, body cut), then it reads on
 	for i, su := range suites {
